@@ -94,6 +94,10 @@ def run(ctx):
             x = [0, 1, q - 1, ctx.rng.randrange(q)][n % 4]
             cases.append(("ABS"[n % 3], pws[n % len(pws)], ids[n % len(ids)][0], ids[n % len(ids)][1], x, n % 4, n))
         traces += persist_traces(uni, mp, g, ps, cases, "shipped")
+    # the empty password / empty identities through one, two and three restores on every class
+    for ps, g in [("Pi11", "i11"), ("PEd25519", "Ed25519"), ("P1024", "I1024")]:
+        q = uni.group(g).order()
+        traces += persist_traces(uni, mp, g, ps, [(cls, b"", b"", b"", 3 % q, nrest, 0) for cls in "ABS" for nrest in (1, 2, 3)], "empty")
     # deep chains: a session persisted and revived many times before it finishes
     for ps, g, depth in [("Pi11", "i11", 40 if thorough else 25), ("Ped37", "ed37", 12), ("PEd25519", "Ed25519", 10 if thorough else 6), ("P1024", "I1024", 8)]:
         G = uni.group(g)
